@@ -109,6 +109,28 @@ def exhaustive(ctx, depth):
                            ['exhaustive', 'state=' + sname, 'layer=' + cfg.layer])
 
 
+TX_LETTERS = ['MAIL', 'RCPT', 'RCPT2', 'RCPT/550', 'DATA', 'DATA-msg/550', 'DATA-msg/450', 'RSET', 'EHLO', 'NOOP', 'MAIL/550']
+
+
+def exhaustive_transactions(ctx):
+    """Edge layer: every transaction-letter sequence of length 3 and 4 after a completed, a rejected and an oversized message
+    (what reaches the queue must hold exactly the sender and recipients given since the last reset)."""
+    index = 0
+    cfg = Config(auth=False, size=60, starttls=False, layer='edge')
+    big = Item('DATA', b'DATA', content=b'0123456789abcdef\r\n' * 10, label='DATA-oversized')
+    for sname, prefix in (('after-rejected-message', ['EHLO', 'MAIL', 'RCPT', 'DATA-msg/550']),
+                          ('after-message', ['EHLO', 'MAIL', 'RCPT', 'DATA']),
+                          ('after-oversized-message', ['EHLO', 'MAIL', 'RCPT', big]),
+                          ('after-tempfailed-message', ['EHLO', 'MAIL', 'RCPT', 'RCPT2', 'DATA-msg/450'])):
+        pre = [L[p] if isinstance(p, str) else p for p in prefix]
+        for n in (3, 4) if ctx.thorough else (3,):
+            for seq in itertools.product(TX_LETTERS, repeat=n):
+                index += 1
+                if not ctx.mine(index):
+                    continue
+                record(ctx, pre + [L[x] for x in seq], cfg, 'line', ['exhaustive-transactions', 'state=' + sname, 'layer=edge'])
+
+
 _addr_local = st.sampled_from(['s', 'bob', 'v450', 'v550', 'v421', 'r-d550', 'r-d450', '"quoted local"', 'a.b', 'x+tag', 'ü'])
 _dom = st.sampled_from(['x.org', 'y.org', 'example.com', 'v550.example'])
 
@@ -159,6 +181,7 @@ def random_session(draw):
 
 def run_shard(ctx):
     exhaustive(ctx, 3 if ctx.thorough else 2)
+    exhaustive_transactions(ctx)
 
     def one(v):
         items, cfg, seg = v
